@@ -1587,3 +1587,92 @@ func (c *Ctx) funcOfCallee(fn *types.Func) *FuncInfo {
 	}
 	return c.funcIndex()[fn.Origin()]
 }
+
+// ---- R-BINARY-LEAF (C05, C04) ------------------------------------------------------------------
+
+// ruleBinaryLeaf: a field of the generated type Binary ([]byte) is one leaf value. The list merge
+// (copySliceField: disjointness test, then append) must never be applied to it.
+func ruleBinaryLeaf(c *Ctx, r *Report) {
+	r.Rule("R-BINARY-LEAF", "copyStruct sends a slice-kinded field to the list merge (copySliceField: append of the members) only when its type is not Binary; a Binary field goes through a leaf merge that reports a conflict unless the values are equal or fields are overwritten, and stores a fresh copy of the source's bytes", 3)
+	f := c.MustFunc(r, "ygot", "copyStruct")
+	if f == nil {
+		return
+	}
+	info := f.Info()
+	isBinaryTest := func(e ast.Expr) bool {
+		be, ok := ast.Unparen(e).(*ast.BinaryExpr)
+		if !ok || (be.Op != token.EQL && be.Op != token.NEQ) {
+			return false
+		}
+		for _, side := range []ast.Expr{be.X, be.Y} {
+			if v, ok := ConstOf(info, side); ok && strings.Trim(v, `"`) == "Binary" {
+				return true
+			}
+		}
+		return false
+	}
+	n := 0
+	for _, call := range CallsIn(info, f.Decl.Body, P("ygot")+".copySliceField") {
+		n++
+		excluded := false
+		for _, ft := range c.FactsAt(f, call, false) {
+			if ft.Kind != "cond" || !isBinaryTest(ft.Cond) {
+				continue
+			}
+			be := ast.Unparen(ft.Cond).(*ast.BinaryExpr)
+			if (be.Op == token.EQL && !ft.Pos) || (be.Op == token.NEQ && ft.Pos) {
+				excluded = true
+			}
+		}
+		r.Check(excluded, fmt.Sprintf("ygot.copyStruct:copySliceField#%d:not-binary", n), c.Pos(call.Pos()), "list merge only for non-Binary slices",
+			"copyStruct merges every slice-kinded field as a list: a binary leaf set in both inputs is merged byte-wise — {1,2} and {3} give {1,2,3} instead of a conflict, and with MergeOverwriteExistingFields the second value does not win")
+	}
+	if n == 0 {
+		r.Und("ygot.copyStruct:copySliceField", c.Pos(f.Decl.Pos()), "copyStruct no longer calls copySliceField: re-confirm how slices are merged")
+	}
+	g := c.MustFunc(r, "ygot", "copyBinaryField")
+	if g == nil {
+		return
+	}
+	ginfo := g.Info()
+	// conflict: an error return guarded by !fieldOverwriteEnabled(opts) and !reflect.DeepEqual(src, dst).
+	conflict := false
+	for _, rs := range returnsOf(g.Decl.Body) {
+		if len(rs.Results) != 1 || isNilConst(ginfo, rs.Results[0]) {
+			continue
+		}
+		ow, de := false, false
+		for _, ft := range c.FactsAt(g, rs, false) {
+			if ft.Kind != "cond" || ft.Pos {
+				continue
+			}
+			if IsCall(ginfo, ast.Unparen(ft.Cond), P("ygot")+".fieldOverwriteEnabled") {
+				ow = true
+			}
+			if IsCall(ginfo, ast.Unparen(ft.Cond), "reflect.DeepEqual") {
+				de = true
+			}
+		}
+		if ow && de {
+			conflict = true
+		}
+	}
+	r.Check(conflict, "ygot.copyBinaryField:conflict", c.Pos(g.Decl.Pos()), "error when both are set, values differ (reflect.DeepEqual) and fields are not overwritten", "copyBinaryField does not report a conflict for two different values of one binary leaf")
+	// write: dst.Set(x) with x from reflect.MakeSlice, filled by reflect.Copy(x, src).
+	ps := paramObjs(g)
+	fresh := false
+	for _, call := range CallsIn(ginfo, g.Decl.Body, "reflect.Value.Set") {
+		if len(ps) >= 2 && ObjOf(ginfo, call.Fun.(*ast.SelectorExpr).X) == ps[0] && len(call.Args) == 1 {
+			if id, ok := ast.Unparen(call.Args[0]).(*ast.Ident); ok {
+				if d := singleDef(g, ginfo.ObjectOf(id)); d != nil && IsCall(ginfo, ast.Unparen(d), "reflect.MakeSlice") {
+					for _, cp := range CallsIn(ginfo, g.Decl.Body, "reflect.Copy") {
+						if len(cp.Args) == 2 && ObjOf(ginfo, cp.Args[0]) == ginfo.ObjectOf(id) && ObjOf(ginfo, cp.Args[1]) == ps[1] {
+							fresh = true
+						}
+					}
+				}
+			}
+		}
+	}
+	r.Check(fresh, "ygot.copyBinaryField:fresh-copy", c.Pos(g.Decl.Pos()), "destination gets reflect.MakeSlice + reflect.Copy of the source bytes", "copyBinaryField does not store a fresh copy of the source's bytes")
+}
